@@ -32,6 +32,8 @@ PhaseClauses(q) ==
   \cup (IF q.vf # "eq" THEN {"C02:volFrac=rvM3"} ELSE {})
   \cup (IF "denslaw" \in DOMAIN q /\ q.denslaw \notin {"lt", "eq"} THEN {"C02:density-law"} ELSE {})
   \cup (IF ~AllEq(q.fconc, "eq") THEN {"C01:fconc=weighted-M3"} ELSE {})
+  \cup (IF ~q.removed01 THEN {"C02:removed-classes-hold-[0,1)"} ELSE {})
+  \cup (IF ~q.clipok THEN {"C02:stored=step-result-minus-classes-below-one"} ELSE {})
   \cup (IF ~q.psdnonneg THEN {"C03:psd>=0"} ELSE {})
   \cup (IF ~q.vfrange THEN {"C03:volFrac-in-[0,1]"} ELSE {})
   \cup (IF ~q.radnonneg THEN {"C03:radii>=0"} ELSE {})
